@@ -860,9 +860,16 @@ pub fn parse(lex_tokens: &Vec<LexerToken>) -> Result<ParseResult, CompilerError>
                         trace!("Changing last left to side effect's parent {:?}", node.parent);
                         last_left = node.parent;
 
+                        let parent_is_open_group = last_left == under_group;
+
                         last_left.and_then(|p| nodes.get(p)).and_then(|node| {
                             // need to update prev def as well for composition check
-                            previous_second_def = node.secondary_definition;
+                            // a group the side effect was attached after has already ended,
+                            // unlike the open group a leading side effect sits in
+                            previous_second_def = match node.secondary_definition {
+                                SecondaryDefinition::StartGrouping if !parent_is_open_group => SecondaryDefinition::EndGrouping,
+                                other => other,
+                            };
                             Some(())
                         });
                     }
